@@ -25,7 +25,9 @@ def seekRel (kind : SrcKind) (len pos : Nat) (delta : Int) : Except Err Nat :=
   match kind with
   | .seekable =>
     let p : Int := (pos : Int) + delta
-    if p < 0 then .error .other else .ok p.toNat
+    -- Seek(delta, SeekCurrent): a negative position is refused, and so is one past 2^63-1
+    -- (the int64 sum wraps negative: "negative position" / "Seek offset overflow")
+    if p < 0 ∨ p ≥ 2 ^ 63 then .error .other else .ok p.toNat
   | .plain =>
     if delta < 0 then .ok pos                      -- io.CopyN with n < 0 copies nothing, no error
     else if pos + delta.toNat > len then .error .eof   -- CopyN hits the end of the stream
